@@ -58,6 +58,28 @@ func guardIdx(p *fg.Parsed, body *ast.BlockStmt, conds []string, returnsContain 
 	return -1
 }
 
+// wholeKeyGuardIdx: index of the top-level `for _, x := range V` statement that contains the UID guard, where V was
+// assigned from `ByKeyAndIPRanges(key, nil)` (all records of the key) by an earlier top-level statement; -1 otherwise.
+func wholeKeyGuardIdx(p *fg.Parsed, body *ast.BlockStmt, conds []string, returnsContain string) int {
+	all := map[string]bool{}
+	for i, s := range body.List {
+		if as, ok := s.(*ast.AssignStmt); ok && len(as.Rhs) == 1 && len(as.Lhs) >= 1 &&
+			strings.Contains(p.Src(as.Rhs[0]), "ByKeyAndIPRanges(key, nil)") {
+			if id, ok := as.Lhs[0].(*ast.Ident); ok {
+				all[id.Name] = true
+			}
+		}
+		rs, ok := s.(*ast.RangeStmt)
+		if !ok || !all[p.Src(rs.X)] {
+			continue
+		}
+		if guardIdx(p, &ast.BlockStmt{List: []ast.Stmt{rs}}, conds, returnsContain) == 0 {
+			return i
+		}
+	}
+	return -1
+}
+
 func hasDeferLockPod(p *fg.Parsed, body *ast.BlockStmt) int {
 	for i, s := range body.List {
 		if d, ok := s.(*ast.DeferStmt); ok && strings.Contains(p.Src(d), "p.lockPod(") {
@@ -165,6 +187,9 @@ func gen(repo string) (map[string]string, error) {
 	mut = firstIdx(bd, alloc.Body, "AllocateInSubnetsAndIPRange(", "cloudProviderAssignIP(", "UpdateAttr(")
 	fmt.Fprintf(&b, "/-- allocateIP: refuses to reuse an IP stored under another non-empty UID before allocating / assigning / updating -/\ndef bindChecksUID : Bool := %s\n", fg.LeanBool(before(g, mut) && mut >= 0))
 
+	wk := wholeKeyGuardIdx(bd, alloc.Body, []string{"ipInfo != nil", "ipInfo.PodUid != \"\"", "ipInfo.PodUid != string(pod.GetUID())"}, "return nil, fmt.Errorf")
+	fmt.Fprintf(&b, "/-- allocateIP: that check ranges over ALL records of the key (ByKeyAndIPRanges(key, nil)), not only the requested ranges -/\ndef bindUidGuardCoversWholeKey : Bool := %s\n", fg.LeanBool(before(wk, mut) && mut >= 0))
+
 	rel, err := bd.Fn("FloatingIPPlugin", "Release")
 	if err != nil {
 		return nil, err
@@ -173,9 +198,11 @@ func gen(repo string) (map[string]string, error) {
 	rd := firstIdx(bd, rel.Body, "p.ipam.ByIP(r.IP)")
 	cmp := guardIdx(bd, rel.Body, []string{"fip.Key != k.KeyInDB"}, "return")
 	run := firstIdx(bd, rel.Body, "p.podRunning(")
+	// the answer is used: `if running { return <error> }` right after the question, before any mutation
+	refuse := guardIdx(bd, rel.Body, []string{"running"}, "return fmt.Errorf")
 	mut = firstIdx(bd, rel.Body, "cloudProviderUnAssignIP(", "p.reserveIP(", "p.ipam.Release(")
-	fmt.Fprintf(&b, "/-- Release: lockPod, re-read ByIP, compare keys, ask podRunning - all before the first mutation -/\ndef releaseRechecksUnderLock : Bool := %s\n",
-		fg.LeanBool(lk >= 0 && before(lk, rd) && before(rd, cmp) && before(cmp, run) && before(run, mut) && mut >= 0))
+	fmt.Fprintf(&b, "/-- Release: lockPod, re-read ByIP, compare keys, ask podRunning and refuse when running - all before the first mutation -/\ndef releaseRechecksUnderLock : Bool := %s\n",
+		fg.LeanBool(lk >= 0 && before(lk, rd) && before(rd, cmp) && before(cmp, run) && before(run, refuse) && before(refuse, mut) && mut >= 0))
 
 	// ---- resync.go
 	rs, err := fg.ParseFile(repo, dir+"resync.go")
@@ -200,9 +227,10 @@ func gen(repo string) (map[string]string, error) {
 		rd = firstIdx(rs, closure.Body, "p.ipam.ByIP(obj.fip.IP)")
 		cmp = guardIdx(rs, closure.Body, []string{"fip.Key != obj.fip.Key"}, "return")
 		run = firstIdx(rs, closure.Body, "p.podRunning(")
+		skip := guardIdx(rs, closure.Body, []string{"running"}, "return")
 		mut = firstIdx(rs, closure.Body, "cloudProviderUnAssignIP(", "p.reserveIP(", "unbindNoneDpPod(", "unbindDpPod(")
 		resyncLock = lk == 0
-		resyncOK = lk >= 0 && before(lk, rd) && before(rd, cmp) && before(cmp, run) && before(run, mut) && mut >= 0 &&
+		resyncOK = lk >= 0 && before(lk, rd) && before(rd, cmp) && before(cmp, run) && before(run, skip) && before(skip, mut) && mut >= 0 &&
 			strings.Contains(rs.Src(closure.Body), "obj.fip = fip") &&
 			strings.Contains(rs.Src(closure.Body), "p.podRunning(obj.keyObj.PodName, obj.keyObj.Namespace, obj.fip.PodUid)")
 	}
@@ -286,6 +314,9 @@ func gen(repo string) (map[string]string, error) {
 	li := firstIdx(bd, bind.Body, "p.PodLister.Pods(args.PodNamespace).Get(args.PodName)")
 	fromLister := li >= 0 && before(li, hasDeferLockPod(bd, bind.Body)) && !strings.Contains(bd.Src(bind.Body), "Client.CoreV1().Pods(args.PodNamespace).Get(")
 	fmt.Fprintf(&b, "/-- Bind reads the pod object from the pod lister (the model's `vPods`) -/\ndef bindReadsPodFromLister : Bool := %s\n", fg.LeanBool(fromLister))
+	lg := guardIdx(bd, bind.Body, []string{"args.PodUID != \"\"", "pod.UID != args.PodUID"}, "return fmt.Errorf")
+	firstUse := firstIdx(bd, bind.Body, "p.lockPod(", "p.allocateIP(", "p.ipam.")
+	fmt.Fprintf(&b, "/-- Bind refuses (before the pod lock and any IPAM call) when the lister's pod has another non-empty UID than args.PodUID -/\ndef bindChecksListerUID : Bool := %s\n", fg.LeanBool(before(li, lg) && before(lg, firstUse) && firstUse >= 0))
 	b.WriteString("\nend Galaxy.Generated.Plugin\n")
 	return map[string]string{"Plugin.lean": b.String()}, nil
 }
